@@ -145,6 +145,10 @@ func Implies(a, b bool) bool { return !a || b }
 // dynamic type of a value at its first type assertion.  Engine only.
 func LazyObject(maxKeys int) map[string]any { return map[string]any{} }
 
+// LazyTypeMismatches is the number of decisions "this document value is NOT
+// of the type the code asks for" taken on the current path.
+func LazyTypeMismatches() int { return 0 }
+
 // LazyAny returns an arbitrary value of unknown dynamic type.  Engine only.
 func LazyAny(maxKeys int) any { return nil }
 
